@@ -3,14 +3,14 @@
 
 use std::cell::RefCell;
 use std::future::Future;
-use std::io::{self, Read};
+use std::io::{self, Read, Write};
 use std::pin::Pin;
 use std::rc::Rc;
 use std::task::{Context, Poll, Waker};
 
 use mpd_protocol::response::Response;
 use mpd_protocol::{AsyncConnection, Connection, MpdProtocolError};
-use tokio::io::{AsyncRead, ReadBuf};
+use tokio::io::{AsyncRead, AsyncWrite, ReadBuf};
 
 use crate::refmodel::wire::{AError, DFrame, DResponse, Item};
 use crate::util::panics;
@@ -177,6 +177,15 @@ impl Read for ChunkReader {
     }
 }
 
+impl Write for ChunkReader {
+    fn write(&mut self, buf: &[u8]) -> io::Result<usize> {
+        Ok(buf.len())
+    }
+    fn flush(&mut self) -> io::Result<()> {
+        Ok(())
+    }
+}
+
 pub struct AsyncChunkReader {
     core: Core,
     /// spurious Pending: PRNG state, probability in 1/256 units
@@ -198,6 +207,18 @@ impl AsyncRead for AsyncChunkReader {
         }
         let n = self.core.do_read(&mut tmp)?;
         buf.put_slice(&tmp[..n]);
+        Poll::Ready(Ok(()))
+    }
+}
+
+impl AsyncWrite for AsyncChunkReader {
+    fn poll_write(self: Pin<&mut Self>, _cx: &mut Context<'_>, buf: &[u8]) -> Poll<io::Result<usize>> {
+        Poll::Ready(Ok(buf.len()))
+    }
+    fn poll_flush(self: Pin<&mut Self>, _cx: &mut Context<'_>) -> Poll<io::Result<()>> {
+        Poll::Ready(Ok(()))
+    }
+    fn poll_shutdown(self: Pin<&mut Self>, _cx: &mut Context<'_>) -> Poll<io::Result<()>> {
         Poll::Ready(Ok(()))
     }
 }
@@ -293,6 +314,13 @@ pub struct RunSpec<'a> {
     pub keep_alive: bool,
 }
 
+thread_local! {
+    /// The first N receive steps of the next run go through `command()` / `command_list()` (send +
+    /// receive) instead of `receive()`. Set by the caller right before `run` (kept out of `RunSpec` so
+    /// that the many existing construction sites stay unchanged).
+    pub static VIA_COMMAND: std::cell::Cell<usize> = const { std::cell::Cell::new(0) };
+}
+
 /// Hook monitor state for one run.
 struct HookMon {
     probes: usize,
@@ -385,9 +413,23 @@ pub fn run(spec: &RunSpec<'_>) -> RunOut {
                 Ok(Ok(mut conn)) => {
                     out.version = Some(conn.protocol_version().to_string());
                     let mut kept = Vec::new();
+                    let mut via = VIA_COMMAND.with(|v| v.replace(0));
                     loop {
                         reset_call(&stats);
-                        let r = panics::catch(|| conn.receive());
+                        let r = panics::catch(|| {
+                            if via > 0 {
+                                via -= 1;
+                                // a close without a response is reported as an error by these shorthands; the
+                                // callers only use them where a response is expected
+                                if via % 2 == 0 {
+                                    conn.command(mpd_protocol::Command::new("ping")).map(Some)
+                                } else {
+                                    conn.command_list(mpd_protocol::CommandList::new(mpd_protocol::Command::new("ping")).command(mpd_protocol::Command::new("status"))).map(Some)
+                                }
+                            } else {
+                                conn.receive()
+                            }
+                        });
                         let item = match r {
                             Err(p) => Item::Panic(p.0),
                             Ok(Ok(Some(resp))) => {
@@ -428,9 +470,21 @@ pub fn run(spec: &RunSpec<'_>) -> RunOut {
                 Ok(Ok(mut conn)) => {
                     out.version = Some(conn.protocol_version().to_string());
                     let mut kept = Vec::new();
+                    let mut via = VIA_COMMAND.with(|v| v.replace(0));
                     loop {
                         reset_call(&stats);
-                        let r = panics::catch(|| spin_block_on(conn.receive()));
+                        let r = panics::catch(|| {
+                            if via > 0 {
+                                via -= 1;
+                                if via % 2 == 0 {
+                                    spin_block_on(conn.command(mpd_protocol::Command::new("ping"))).map(Some)
+                                } else {
+                                    spin_block_on(conn.command_list(mpd_protocol::CommandList::new(mpd_protocol::Command::new("ping")).command(mpd_protocol::Command::new("status")))).map(Some)
+                                }
+                            } else {
+                                spin_block_on(conn.receive())
+                            }
+                        });
                         let item = match r {
                             Err(p) => Item::Panic(p.0),
                             Ok(Ok(Some(resp))) => {
